@@ -95,6 +95,23 @@ def judge(acc, f, r, o, s, b, us, route, carrier, int_params, part):
                               {'part': part, 'route': route}, full=case)
                 return
             acc.outcome('readback_checked')
+    # the same read-back through element routes: item=, index=, .item(), x[i]()
+    if route == 'ctor' and len(expc) >= 1:
+        for i in sorted({0, len(expc) - 1}):
+            want = s * expc[i] * lsb + b
+            if not (exact_f(want) and exact_f(expc[i] * lsb) and exact_f(s * expc[i] * lsb)):
+                continue
+            try:
+                reads = (x.get_val(item=i), x.astype(float, item=i), x.item(i), x.get_val(index=i), x[i]())
+                acc.transitions += 5
+            except Exception as e:
+                acc.violation('exception', case, '%s: element read raised %r' % (sig, e), {'part': part, 'route': 'element_read'})
+                break
+            if [Fraction(float(r)) for r in reads] != [want] * 5:
+                acc.violation('readback', dict(case, us=[list(us[i])]), '%s: element %d (code %d) read by item= / astype(item=) / item() / index= / x[i]() gives %s, expected %s'
+                              % (sig, i, expc[i], [float(r) for r in reads], want), {'part': part, 'route': 'element_read'}, full=case)
+                break
+            acc.outcome('element_read_checked')
     ef = (any(e[1] for e in q), any(e[2] for e in q), any(e[3] for e in q))
     if fl != ef:
         acc.violation('flags', case, '%s: flags %s, expected those of the unscaled values %s' % (sig, fl, ef), {'part': part, 'route': route})
